@@ -411,6 +411,9 @@ class Effects:
                     if isinstance(tg, ast.Attribute) and isinstance(tg.value, ast.Name) and tg.value.id == sn:
                         for r in self.roots_of(init, n.value):
                             if r[0] == "param":
+                                ts = self.inf._param_type(init, r[1])
+                                if ts and all(t[0] == "prim" or t == LOCAL for t in ts):
+                                    continue
                                 captured.add(r[1])
         out = []
         binding = bind_args(init, call, skip_self=True)
@@ -1118,6 +1121,50 @@ class Effects:
                     if self.dominated_by(fn, e.node, [real[0].node]):
                         out[id(e.node)] = "restore"
                         restores.append((e, tgt_text, real[0].node))
+        # detach/restore loops (Reaction.copy):  for i in X: i.attr = None ... for i in X: i.attr = snapshot
+        def loop_key(e):
+            lp = parent(e.node)
+            if isinstance(lp, ast.For) and isinstance(lp.target, ast.Name) and len(lp.body) == 1:
+                tg = e.node.targets[0]
+                if isinstance(tg.value, ast.Name) and tg.value.id == lp.target.id:
+                    return lp, (norm(lp.iter, 200), tg.attr)
+            return None, None
+
+        loop_restores = []
+        for e in stores:
+            lp, key = loop_key(e)
+            if lp is None:
+                continue
+            v = e.node.value
+            if isinstance(v, ast.Name):
+                owner, defs = inf.lookup_name(fn, v.id)
+                real = [d for d in defs if d.kind != "aug"]
+                if (
+                    len(real) == 1
+                    and real[0].kind == "assign"
+                    and isinstance(real[0].value, ast.Attribute)
+                    and real[0].value.attr == key[1]
+                    and self.dominated_by(fn, lp, [real[0].node])
+                ):
+                    out[id(e.node)] = "restore"
+                    loop_restores.append((lp, key, real[0].node))
+        for e in stores:
+            if id(e.node) in out:
+                continue
+            lp, key = loop_key(e)
+            if lp is None:
+                continue
+            for rlp, rkey, snap in loop_restores:
+                if rkey != key or rlp is lp:
+                    continue
+                if not self.dominated_by(fn, lp, [snap]):
+                    continue
+                g = g or self.flow.cfg(fn)
+                starts = [n for n in g.nodes_for(lp) if not n.copy]
+                rnodes = set(g.nodes_for(rlp))
+                if g.escapes(starts, lambda n: n in rnodes, [g.exit, g.rexit]) is None:
+                    out[id(e.node)] = "paired"
+                    break
         for e in stores:
             if id(e.node) in out:
                 continue
